@@ -119,8 +119,9 @@ def scan_file(path, modpath, where):
                     unwind = int(u.group(1))
                 f = FN.match(lines[j])
                 if f:
-                    if is_proof:
-                        out.append(Harness(modpath + "::" + f.group(1), where, meta, unwind, path, j + 1))
+                    wrapped = any("counting!" in lines[k] for k in range(max(0, i - 2), i))
+                    if is_proof or wrapped:
+                        out.append(Harness(modpath + "::" + f.group(1), where, meta, unwind or (10 if wrapped else None), path, j + 1))
                     break
                 mac = MACRO.match(lines[j])
                 if mac:
